@@ -94,6 +94,66 @@ func (g *gen) layout(c *Case, reqs []req) {
 	}
 }
 
+// layoutWire cuts ALL arguments out of ONE buffer as adjacent sub-slices, in the given order
+// (nil = random order): the shape of a wire message `nonce‖ciphertext‖tag`, of the (ciphertext, tag)
+// pair an encrypt call returns, of a struct of fields packed into one allocation. Each slice's
+// capacity ends at its length, somewhere later, or at the end of the buffer (so a later argument
+// lies inside the capacity of an earlier one, starting exactly at its end).
+func (g *gen) layoutWire(c *Case, reqs []req, order []int, capMode int) {
+	if order == nil {
+		order = make([]int, len(reqs))
+		for i := range order {
+			order[i] = i
+		}
+		for i := len(order) - 1; i > 0; i-- {
+			j := g.r.Intn(i + 1)
+			order[i], order[j] = order[j], order[i]
+		}
+	}
+	total := 0
+	for _, q := range reqs {
+		total += len(q.data)
+	}
+	off, tail := g.r.Intn(20), g.r.Intn(24)
+	size := off + total + tail
+	c.Bufs = append(c.Bufs, size)
+	b := len(c.Bufs) - 1
+	args := make([]Arg, len(reqs))
+	pos := off
+	for _, k := range order {
+		q := reqs[k]
+		L := len(q.data)
+		m := capMode // 0: to the end of the buffer, 1: cap == len, 2: random, -1: choose per argument
+		if m < 0 {
+			m = g.r.Intn(3)
+			if g.r.Intn(2) == 0 {
+				m = 0
+			}
+		}
+		cp := size - pos
+		switch m {
+		case 1:
+			cp = L
+		case 2:
+			cp = L + g.r.Intn(size-pos-L+1)
+		}
+		args[k] = Arg{Name: q.name, Buf: b, Off: pos, Len: L, Cap: cp, Data: hex.EncodeToString(q.data)}
+		pos += L
+	}
+	c.Args = append(c.Args, args...)
+	c.Layout = "wire"
+}
+
+// place lays the arguments out: usually each in its own buffer (layout), one time in four as
+// adjacent sub-slices of a single buffer (layoutWire).
+func (g *gen) place(c *Case, reqs []req) {
+	if g.r.Intn(4) == 0 {
+		g.layoutWire(c, reqs, nil, -1)
+		return
+	}
+	g.layout(c, reqs)
+}
+
 func (c *Case) arg(name string) *Arg {
 	for i := range c.Args {
 		if c.Args[i].Name == name {
@@ -245,7 +305,7 @@ func (g *gen) wrapCase() *Case {
 	if n%8 != 0 || n < 16 {
 		c.Path = "bad-length"
 	}
-	g.layout(c, []req{{name: "cek", data: g.r.Bytes(n), nilable: true, spare: -1}})
+	g.place(c, []req{{name: "cek", data: g.r.Bytes(n), nilable: true, spare: -1}})
 	return c
 }
 
@@ -268,7 +328,7 @@ func (g *gen) unwrapCase() *Case {
 		ct = append(ct, g.r.Bytes(1+g.r.Intn(9))...)
 		c.Auth, c.Path = false, "trailing-bytes"
 	}
-	g.layout(c, []req{{name: "cipherText", data: ct, nilable: true, spare: -1}})
+	g.place(c, []req{{name: "cipherText", data: ct, nilable: true, spare: -1}})
 	return c
 }
 
@@ -311,7 +371,7 @@ func (g *gen) cbcAeadNewCase() *Case {
 			c.Path = "key-size"
 		}
 	}
-	g.layout(c, []req{{name: "key", data: g.r.Bytes(n), nilable: true, spare: -1}})
+	g.place(c, []req{{name: "key", data: g.r.Bytes(n), nilable: true, spare: -1}})
 	return c
 }
 
@@ -330,7 +390,7 @@ func (g *gen) cbcSealCase() *Case {
 		keyLen++
 		c.Path = "key-size"
 	}
-	g.layout(c, []req{
+	g.place(c, []req{
 		{name: "plaintext", data: pt, nilable: true, spare: -1},
 		{name: "nonce", data: nonce, spare: -1},
 		{name: "additionalData", data: g.r.Bytes(g.r.Intn(40)), nilable: true, spare: -1},
@@ -386,7 +446,7 @@ func (g *gen) cbcOpenCase() *Case {
 		c.Path = "key-size"
 	}
 	c.Dec = hex.EncodeToString(raw)
-	g.layout(c, []req{
+	g.place(c, []req{
 		{name: "ciphertext", data: sealed, nilable: true, spare: -1},
 		{name: "nonce", data: nonce, spare: -1},
 		{name: "additionalData", data: ad, nilable: true, spare: -1},
@@ -490,7 +550,7 @@ func (g *gen) encSymCase() *Case {
 	reqs = append(reqs,
 		req{name: "nonce", data: g.r.Bytes(ns), nilable: true, spare: -1},
 		req{name: "associatedData", data: g.r.Bytes(g.r.Intn(40)), nilable: true, spare: -1})
-	g.layout(c, reqs)
+	g.place(c, reqs)
 	g.aliasAD(c, "associatedData", "nonce", "plaintext")
 	return c
 }
@@ -596,7 +656,7 @@ func (g *gen) decSymCase() *Case {
 		req{name: "nonce", data: nonce, nilable: true, spare: -1},
 		req{name: "tag", data: tag, nilable: true, spare: -1},
 		req{name: "associatedData", data: ad, nilable: true, spare: -1})
-	g.layout(c, reqs)
+	g.place(c, reqs)
 	return c
 }
 
@@ -657,7 +717,7 @@ func (g *gen) encPubCase() *Case {
 		reqs = append(reqs, req{name: "nonce", data: g.r.Bytes(g.r.Intn(17)), nilable: true, spare: -1})
 	}
 	reqs = append(reqs, req{name: "associatedData", data: g.r.Bytes(g.r.Intn(24)), nilable: true, spare: -1})
-	g.layout(c, reqs)
+	g.place(c, reqs)
 	return c
 }
 
@@ -710,7 +770,7 @@ func (g *gen) decPrivCase() *Case {
 			req{name: "tag", data: g.r.Bytes(g.r.Intn(17)), nilable: true, spare: -1})
 	}
 	reqs = append(reqs, req{name: "associatedData", data: label, nilable: true, spare: -1})
-	g.layout(c, reqs)
+	g.place(c, reqs)
 	return c
 }
 
@@ -772,7 +832,7 @@ func (g *gen) signCase() *Case {
 	if c.KeyKind == "oct" {
 		reqs = append(reqs, req{name: "key", data: g.r.Bytes(32), spare: -1})
 	}
-	g.layout(c, reqs)
+	g.place(c, reqs)
 	return c
 }
 
@@ -825,7 +885,7 @@ func (g *gen) verifyCase() *Case {
 	if c.KeyKind == "oct" {
 		reqs = append(reqs, req{name: "key", data: g.r.Bytes(32), spare: -1})
 	}
-	g.layout(c, reqs)
+	g.place(c, reqs)
 	return c
 }
 
